@@ -293,3 +293,39 @@ pub fn dump_fingerprint(d: &VerifDump) -> Vec<u64> {
     v.push(tgt(d.seal_next));
     v
 }
+
+
+/// The part of a canonical key that iterators and Drop can observe: hasher
+/// kind, table geometry, control bytes and the link structure - without key
+/// ids, sizes, the limit and the counters. Used to choose one representative
+/// state per list/table shape for the owning-iterator sweep of the quick tier.
+pub fn shape_of(key: &[u8]) -> Vec<u8> {
+    let mut out = Vec::with_capacity(key.len() / 2);
+    if key.len() < 29 {
+        return key.to_vec();
+    }
+    out.push(key[0]);
+    let items = u32::from_le_bytes([key[17], key[18], key[19], key[20]]) as usize;
+    let buckets = u32::from_le_bytes([key[25], key[26], key[27], key[28]]) as usize;
+    out.extend_from_slice(&key[17..21]);
+    out.extend_from_slice(&key[25..29]);
+    let mut p = 29;
+    if p + buckets > key.len() {
+        return key.to_vec();
+    }
+    out.extend_from_slice(&key[p..p + buckets]);
+    p += buckets;
+    // per full bucket: index 4, id 4, kheap 4, vheap 8, size 8, prev 4, next 4 = 36 bytes
+    for _ in 0..items {
+        if p + 36 > key.len() {
+            return key.to_vec();
+        }
+        out.extend_from_slice(&key[p..p + 4]);
+        out.extend_from_slice(&key[p + 28..p + 36]);
+        p += 36;
+    }
+    if p + 8 <= key.len() {
+        out.extend_from_slice(&key[p..p + 8]);
+    }
+    out
+}
